@@ -249,6 +249,17 @@ func c07(r *engine.Report, p *engine.Program) {
 	replyLoopRule(r, p, "O10-reply-loop")
 	// O11 the shared UDP demultiplexer cannot be blocked by one peer's dead session
 	sharedDemuxRule(r, p, "O11-shared-demux")
+	// O12 peer-supplied routing updates cannot delete this node's own adjacency (it would stop
+	// routing for its well-behaved neighbours): clause decided by C01's own-row rules
+	{
+		sub := engine.NewReport("C01", r.Tier, p)
+		c01(sub, p)
+		if r.ImportFrom(sub, "O12-own-adjacency", "R3-own-row") < 2 {
+			r.Broken("C01 own-row obligations not generated")
+		}
+	}
+	// O13 the reader side never writes to a websocket
+	wsSingleWriterRule(r, p, "O13-ws-single-writer")
 }
 
 func chanDesc(v ssa.Value) string {
